@@ -4,7 +4,7 @@
 Decides one property (see DESIGN.md section 4):
   1. regenerate Generated/*.lean from /repo's current source (fact extractor)
   2. proof obligations: lake build Props.Cxx, audit `#print axioms`, grep for escape hatches
-  3. correspondence: real code (Go harness, -tags verif) vs Lean model (dnsdrv) on generated cases
+  3. correspondence: real code (Go harness, -tags verif) vs Lean model (drv_Cxx, the property's own driver executable) on generated cases
   4. property oracle on the implementation (Spec evaluated on impl output)
   5. if 2 or 3 broke: search for a failing input, shrink, write the replay
   6. known findings
@@ -137,7 +137,7 @@ def import_closure(module):
 def forbidden_scan(pid):
     """grep for escape hatches in every project file the property theorems (and the driver) import."""
     hits = []
-    files = set(import_closure(f"DnsVerif.Props.{pid}")) | set(import_closure("Driver.Main"))
+    files = set(import_closure(f"DnsVerif.Props.{pid}")) | set(import_closure(f"Driver.Main{pid}"))
     for p in sorted(files):
         in_block = 0
         for n, line in enumerate(open(p, errors="replace"), 1):
@@ -172,7 +172,7 @@ def proof_obligations(pid, tier):
     audit_src = open(audit_path).read()
     names = re.findall(r"^#print axioms\s+(\S+)", audit_src, flags=re.M)
     res["obligations"] = names
-    targets = [f"DnsVerif.Props.{pid}", "dnsdrv"]
+    targets = [f"DnsVerif.Props.{pid}", f"drv_{pid}"]
     t0 = time.time()
     rc, out = run(["lake", "build"] + targets, cwd=LEAN, timeout=3600)
     res["log"] += out[-20000:]
@@ -330,7 +330,7 @@ def execute_ops(pid, ops_lines, workdir, exe, tag="x"):
         for op, il in zip(ops_lines, impl_lines):
             i = il.split("\t")[0][2:]
             f.write(f"{op} | {i}\n")
-    drv = os.path.join(LEAN, ".lake", "build", "bin", "dnsdrv")
+    drv = os.path.join(LEAN, ".lake", "build", "bin", f"drv_{pid}")
     with open(joined_path) as fin:
         p = subprocess.run([drv], stdin=fin, stdout=subprocess.PIPE, stderr=subprocess.PIPE, text=True,
                            errors="replace", timeout=PROPS[pid].get("run_timeout", 7200))
@@ -488,14 +488,14 @@ def decide(pid, cfg, args, workdir, t_start):
         if not ok:
             tie_broken.append(("fact-extractor", msg[-1500:]))
         if args.skip_proofs:
-            rc, out = run(["lake", "build", "dnsdrv"], cwd=LEAN)
+            rc, out = run(["lake", "build", f"drv_{pid}"], cwd=LEAN)
             po = {"obligations": ["skipped"], "discharged": ["skipped"], "broken": [], "axioms": set(), "log": out}
         else:
             po = proof_obligations(pid, tier)
         hok, hout, exe = build_harness(race=bool(cfg.get("race_build")))
         if not hok:
             tie_broken.append(("harness-build", hout[-1500:]))
-        drv_ok = os.path.exists(os.path.join(LEAN, ".lake", "build", "bin", "dnsdrv"))
+        drv_ok = os.path.exists(os.path.join(LEAN, ".lake", "build", "bin", f"drv_{pid}"))
         if hok:
             # private copies so later rebuilds by other checks do not disturb this run
             exe2 = os.path.join(workdir, "verifharness")
